@@ -42,7 +42,7 @@ pub fn run(ctx: &mut Ctx) {
     for (n, ok) in r2::selftest() {
         ctx.selftest(&n, ok);
     }
-    ctx.require(&["annex_kat", "fixed_nonce_exact", "free_nonce", "ref_made_accepted", "openssl_made_accepted", "id_default", "id_explicit", "id_empty", "id_8191", "id_too_long", "id_non_ascii_utf8", "msg_empty", "edge_key", "random_key", "e_ge_n", "key_from_constructor", "key_from_gen_keypair", "key_with_jacobian_public_point", "retry:r=0", "retry:r+k=n", "retry:s=0", "digest_regular"]);
+    ctx.require(&["annex_kat", "fixed_nonce_exact", "free_nonce", "ref_made_accepted", "openssl_made_accepted", "id_default", "id_explicit", "id_empty", "id_8191", "id_too_long", "id_non_ascii_utf8", "msg_empty", "edge_key", "random_key", "e_ge_n", "key_from_constructor", "key_from_gen_keypair", "key_with_jacobian_public_point", "retry:r=0", "retry:r+k=n", "retry:s=0", "digest_regular", "id_len_threshold", "msg_beyond_2^16_bits"]);
     let c = r2::curve();
 
     // --- Annex example through the library with the nonce injected
@@ -187,6 +187,40 @@ pub fn run(ctx: &mut Ctx) {
         }
         if i % 1000 == 0 {
             ctx.sample(json!({"d": hex::encode(r2::b32(&d)), "id": if id_str.len() > 40 { format!("{} chars", id_str.len()) } else { id_str.clone() }, "msg_len": mlen, "mode": (["fixed nonce", "free nonce", "reference-made"][(i % 3) as usize])}));
+        }
+    }
+
+    // --- thresholds: ID lengths around 2^5, 2^8, 2^12 bytes (ENTL bytes) and messages beyond 2^16 bits / 2^16 bytes
+    {
+        let mut pt = ctx.prng("thresholds");
+        let idlens = [31usize, 32, 33, 255, 256, 257, 4095, 4096, 8190];
+        let mlens = [8183usize, 8185, 8192, 65535, 65536, 70001, 1 << 20];
+        let reps = ctx.n(1, 6);
+        let mut ti = 0u64;
+        for _ in 0..reps {
+            for j in 0..idlens.len().max(mlens.len()) {
+                ti += 1;
+                let sub = pt.next();
+                if !ctx.mine(ti) {
+                    continue;
+                }
+                let mut p = Prng::new(sub, "th");
+                let d = rand_scalar(&mut p, &(&c.n - 1u32));
+                let k = rand_scalar(&mut p, &c.n);
+                if j < idlens.len() {
+                    let id = ascii_id(&mut p, idlens[j]);
+                    let msg = p.bytes(20);
+                    ctx.class("id_len_threshold");
+                    fixed_case(ctx, &d, Some(leak(id.clone())), &id, &msg, &k, "id_len_threshold");
+                    ref_made_case(ctx, &d, Some(leak(id.clone())), &id, &msg, &k, 0);
+                }
+                if j < mlens.len() {
+                    let msg = p.bytes(mlens[j]);
+                    ctx.class("msg_beyond_2^16_bits");
+                    fixed_case(ctx, &d, None, DEFAULT_ID, &msg, &k, "msg_beyond_2^16_bits");
+                    ref_made_case(ctx, &d, None, DEFAULT_ID, &msg, &k, 0);
+                }
+            }
         }
     }
 
